@@ -20,10 +20,14 @@ def main():
         r = sh(f'git -C /repo apply {p}')
         if r.returncode != 0:
             rows.append((d, pid, 'patch does not apply', '', 0)); continue
+        ev = f'{V}/evidence/{pid}.json'
+        saved = open(ev).read() if os.path.exists(ev) else None      # evidence of a run on a changed tree is not kept
         t0 = time.time()
         r = sh(f'python3 {V}/checks/run_check.py {pid} --tier quick', timeout=1800)
         dt = time.time() - t0
         sh('git -C /repo checkout -- .')
+        if saved is not None:
+            open(ev, 'w').write(saved)
         out = r.stdout + r.stderr
         fired = 'VIOLATION property=' + pid in out
         keys = re.findall(r'violations by key: (\{.*\})', out)
